@@ -220,6 +220,9 @@ def _exog_ok(spec):
         return all(_exog_ok(m) for m in spec["members"])
     if k == "mux":
         return _exog_ok(spec["members"][spec["selected"]])
+    if k == "ttf":
+        # (the transformers work on y alone; X is for the final forecaster)
+        return _exog_ok(spec["forecaster"])
     return False
 
 
